@@ -36,7 +36,7 @@ MARKUP_CHARS = frozenset("&<>\"'")
 def _token():
     pools = [
         (6, st.sampled_from(MARKUP)),
-        (2, st.sampled_from(['"', "'", "'", ">"])),
+        (3, st.sampled_from(["<", '"', "'", "<", ">", "'"])),
         (2, st.sampled_from(PAIRS)),
         (3, st.sampled_from(ATTR_BREAK)),
         (4, st.sampled_from(ELEM_LIKE)),
@@ -97,8 +97,9 @@ def markup_text(max_len=24, fname=False):
     blank = st.lists(st.sampled_from([" ", "\t", "\n", "\r"]), min_size=1, max_size=4).map("".join)
     longish = st.tuples(st.lists(tok, min_size=1, max_size=5).map("".join),
                         st.sampled_from([30, 60, 120, 200])).map(lambda t: (t[0] * (t[1] // max(1, len(t[0])) + 1))[:t[1]])
-    s = st.one_of(general, general, general, general, embedded, embedded, embedded, single, single,
-                  st.one_of(blank, longish, longish, longish))
+    nonblank = st.one_of(general, general, general, general, embedded, embedded, embedded, single, single,
+                         longish).map(lambda x: x if x.strip(" \t\r\n") else "a" + x)
+    s = st.one_of(*([nonblank] * 6 + [blank]))
     return s.map(lambda x: _clip(x, max_len, fname)).filter(lambda x: x != "")
 
 
